@@ -922,7 +922,11 @@ class Summary:
                 or (self.sink_upvar is not None and all(t_[0] == "upvar" and t_[1] == self.sink_upvar for t_ in b.operand_prov(c.args[0])))):
             # the subscriber itself (creation functions emit on it directly)
             if a == "obs_next":
-                p.trace.append(("sink_next", self._payload_kind(p, c, 1)))
+                v_ = self.operand(p, c.args[1]) if len(c.args) > 1 else TOP
+                if is_int(v_) and v_[1] is None:
+                    p.trace.append(("sink_next", "int", v_[2]))       # a source emitting a known number (interval's tick count)
+                else:
+                    p.trace.append(("sink_next", self._payload_kind(p, c, 1)))
             else:
                 p.trace.append(("sink_error",) if a == "obs_error" else ("sink_complete",))
             return done(p)
@@ -1562,3 +1566,14 @@ def _show_b(e):
     if e[0] in ("and", "or"):
         return "(%s %s %s)" % (_show_b(e[1]), "&&" if e[0] == "and" else "||", _show_b(e[2]))
     return "%s %s %s" % (_show_i(e[2]), {"Lt": "<", "Le": "<=", "Gt": ">", "Ge": ">=", "Eq": "==", "Ne": "!="}[e[1]], _show_i(e[3]))
+
+
+def field_init(P, E, adt, field):
+    """initial contents of a lock-typed field of `adt`, read off the aggregate its constructor builds:
+    ("flag", bool) / ("int", n) / ("optcell", present, payload) / ("cont", ..) / None when it cannot be read"""
+    S = Summary.__new__(Summary)
+    S.P, S.E, S.cellinfo, S.bounds = P, E, {}, {}
+    try:
+        return S._field_kind(adt, field)
+    except Exception:
+        return None
